@@ -161,6 +161,13 @@ MUTANTS = [
     ("parse-error-line-off-by-one", "varlink_parser/src/lib.rs",
      r"nth\(e\.location\.line - 1\)\.unwrap\(\);", "nth(e.location.line).unwrap_or_default();", {"C12"}),
     ("parse-error-column-is-offset", "varlink_parser/src/lib.rs", r"column: e\.location\.column,", "column: e.location.offset,", {"C12"}),
+    ("activation-env-set-in-child", "varlink/src/client.rs",
+     r'(\.pre_exec\(move \|\| \{\s*dup2\(2, 1\);)', r'\1\n                std::env::set_var("LISTEN_FDS", "1");', {"C16"}),
+    ("activation-fd3-keeps-cloexec", "varlink/src/client.rs",
+     r"\} else \{\s*// the socket already is descriptor 3.*?fcntl\(fd, F_SETFD, flags & !FD_CLOEXEC\);\s*\}", "}", {"C16"}),
+    ("activation-listen-fds-missing", "varlink/src/client.rs", r'\s*\.env\("LISTEN_FDS", "1"\)', "", {"C16"}),
+    ("activation-listen-pid-not-exported", "varlink/src/client.rs",
+     r'String::from\("export LISTEN_PID=\$\$; exec "\)', 'String::from("exec ")', {"C16"}),
 ]
 
 
